@@ -13,20 +13,22 @@ def hexs(bs):
 
 
 def eval_case(flex, workdir, prog, spec_text, flex_opts, inputs, fuel=30000, check_lockstep=True,
-              compile_scanner=True, run_scs=None, cc_extra=None, driver_timeout=300):
+              compile_scanner=True, run_scs=None, cc_extra=None, driver_timeout=300, backend='nr'):
     """run_scs: list of start conditions (1-based) in which each input is scanned (default [1])."""
     res = {'problems': [], 'lockstep': [], 'streams': [], 'flex_opts': list(flex_opts)}
     os.makedirs(workdir, exist_ok=True)
     lpath = os.path.join(workdir, "s.l")
     with open(lpath, "w") as f:
         f.write(spec_text)
-    rc, out, err = scanner.run_flex(flex, "s.l", "s.c", flex_opts, workdir)
+    import backends
+    cfile = "s." + backends.BACKENDS[backend]['ext']
+    rc, out, err = scanner.run_flex(flex, "s.l", cfile, flex_opts, workdir)
     res['flex_rc'] = rc
     res['flex_err'] = err.decode(errors="replace")[:2000]
     if rc != 0:
         res['problems'].append(('flex-error', res['flex_err'][:300]))
         return res
-    with open(os.path.join(workdir, "s.c"), errors="replace") as f:
+    with open(os.path.join(workdir, cfile), errors="replace") as f:
         src = f.read()
     try:
         t = tables.parse_scanner(src)
@@ -41,7 +43,8 @@ def eval_case(flex, workdir, prog, spec_text, flex_opts, inputs, fuel=30000, che
     # real scanner
     real = {}
     if compile_scanner:
-        rc, out, err = scanner.compile_c("s.c", "s.exe", workdir, extra=cc_extra)
+        rc, out, err = scanner.compile_c(cfile, "s.exe", workdir, extra=(cc_extra or []) + ["-I" + os.path.dirname(flex)],
+                                         backend=backend)
         if rc != 0:
             res['problems'].append(('compile-error', err.decode(errors="replace")[:600]))
             compile_scanner = False
